@@ -50,6 +50,14 @@ def gen(rng, idx, tier, seed):
         # (AIRQUALITY/INSTANT files hold a single instant by convention)
         spec['name'] = 'AVERAGE' if spec['name'] in ('AVERAGE', 'INSTANT') \
             else 'EMISSIONS'
+        if spec['name'] == 'EMISSIONS' and rng.random() < 0.4:
+            # two-dimensional emissions: one layer of records, the grid
+            # header says nz = 0 (both readers accept that)
+            spec['nz'] = 1
+            spec['hdr_nz'] = 0
+    elif spec['fmt'] != 'wind' and rng.random() < 0.2:
+        # meteorological readers called without the grid shape
+        spec['noshape'] = True
     return spec
 
 
@@ -58,7 +66,12 @@ def read_all(fmt, path, spec, reader, res):
     dims = None
     try:
         with harness.step_budget(BUDGET) as b:
-            f = open_lib(fmt, path, spec, reader=reader)
+            if spec.get('noshape'):
+                from PseudoNetCDF.camxfiles import Memmaps, Readers
+                f = getattr(Memmaps if reader == 'Memmap' else Readers,
+                            fmt)(path)
+            else:
+                f = open_lib(fmt, path, spec, reader=reader)
             dims = {k: len(d) for k, d in f.dimensions.items()}
             out = {}
             for k in list(f.variables.keys()):
@@ -78,6 +91,10 @@ def run(spec, res):
     fmt = spec['fmt']
     dg = digest(spec)
     facets = ['fmt:' + fmt, 'nt:%d' % spec['nt']]
+    if spec.get('noshape'):
+        facets.append('no-shape-arguments')
+    if 'hdr_nz' in spec:
+        facets.append('header-nz-0')
     with harness.casedir() as d:
         path = os.path.join(d, 'img.' + fmt)
         with open(path, 'wb') as fh:
